@@ -102,6 +102,9 @@ def negative_controls(ctx, col, verdicts):
     if pick:
       break
   if not pick:
+    if ctx.violations:
+      ctx.neg_controls.append(dict(name='skipped: every recorded trace is flagged', rejected=True))
+      return
     raise Machinery('no clean trace with a successful write for a negative control')
   i, j = pick
   a = copy.deepcopy(col.traces[i])
